@@ -24,6 +24,11 @@ Failure / recovery paths (round h8, all OPTIONAL fields — a case without them 
   * `Exec.snapshot()` / `info["snap_before"]`, `info["snap_after"]`, `info["live_args"]`, `info["atomic"]`
     (see `atomic_route`) and `Exec.taint` serve the oracle clauses of C08 / C09: `check_rejected`.
 The Lean runners answer {"unsupported": true} for cases using any of these (oracle only).
+
+Sorts whose COMPARISON fails (round m1, opt-in: `gen_sort_failure_case`; cases are marked `nomodel`): sort keys
+`"value"` (`lambda e: e.value`: ints and None do not compare), `"cmp-raise"` / `"cmp-mutate"` with `"after": k` (a key
+object whose `<` raises after k comparisons / appends `"v"` to the list being sorted).  CPython leaves the list
+REARRANGED then; `atomic_route` is None for them and `check_sort_failure` states what must hold.
 """
 import itertools
 import operator
@@ -568,6 +573,10 @@ class Exec:
                             raise ValueError("key")
                         return 0
                     kw["key"] = failing_key
+                elif op.get("key") in SORT_CMP_FAILS:
+                    # a key under which a COMPARISON may fail (round m1): CPython leaves the list rearranged
+                    kw["key"] = comparison_failing_key(op, lambda e: e.value, lambda e: e.u,
+                                                       lambda: target.append(py(op.get("v", 0))))
                 target.sort(reverse=bool(op["rev"]), **kw); return "ok"
             if name == "set":
                 return ("b", target.set(py(op["v"])))
@@ -849,6 +858,48 @@ SEQ_ATOMIC = ("append", "insert", "setslice", "delitem", "delslice", "pop", "rem
 MAP_ATOMIC = ("delitem", "pop", "popitem", "clear", "get", "contains", "len")
 
 
+# Sort keys by what can go wrong (round m1).  `list.sort(key=f)` computes every key FIRST: an exception raised by `f`
+# itself escapes before anything moved (CPython restores the list) — a rejection.  An exception raised by a COMPARISON
+# of two keys (or `ValueError: list modified during sort`) escapes in the middle of the merge: CPython documents that
+# the list is left in a partially rearranged state.  That is an effect, so such a sort is NOT a rejection route; what
+# must hold afterwards is stated by `check_sort_failure`.
+SORT_KEY_TOTAL = ("u", "ulen")                        # defined on every member, totally ordered: cannot raise
+SORT_KEY_FN_RAISES = ("len", "field", "raise")        # if the call raises, the KEY FUNCTION raised: nothing moved
+SORT_CMP_FAILS = ("value", "cmp-raise", "cmp-mutate")  # if the call raises, a COMPARISON raised: rearranged
+
+
+class FailingCmp:
+    """a sort key object: `<` compares the texts while the shared budget lasts, then fails — by raising ValueError
+    (`cmp-raise`) or by running `on_exhaust` once and going on (`cmp-mutate`: the callback appends to the list being
+    sorted, which CPython reports as `ValueError: list modified during sort` after it finished the sort)"""
+    __slots__ = ("text", "state")
+
+    def __init__(self, text, state):
+        self.text = text
+        self.state = state
+
+    def __lt__(self, other):
+        st = self.state
+        if st["budget"] <= 0 and not st["done"]:
+            st["done"] = st["on_exhaust"] is not None
+            if st["on_exhaust"] is None:
+                raise ValueError("comparison")
+            st["on_exhaust"]()
+        st["budget"] -= 1
+        return self.text < other.text
+
+
+def comparison_failing_key(op, value_of, text_of, mutate):
+    """the key function of a sort op whose `key` is in SORT_CMP_FAILS, for the real sequence (items are members) and for
+    the oracle's plain Python list alike: `value_of(item)` / `text_of(item)` read the adapted value / the text,
+    `mutate()` appends to the list being sorted (`cmp-mutate`)"""
+    key = op.get("key")
+    if key == "value":
+        return value_of                                # ints and None (unadapted text) do not compare: TypeError
+    state = {"budget": int(op.get("after", 0)), "done": False, "on_exhaust": mutate if key == "cmp-mutate" else None}
+    return lambda item: FailingCmp(text_of(item), state)
+
+
 def atomic_route(target, kind, op, args):
     """The name of the route if an exception raised by this call is a REJECTION, i.e. is raised before any documented
     effect, so that the call must leave everything observable as it was; None for calls whose documented behaviour
@@ -857,7 +908,9 @@ def atomic_route(target, kind, op, args):
         dict.update(<pairs>) do); set / set_default / set_flat empty the container first;
       * `lst[i] = <plain value>` on a List with a valid index is `lst[i].set(value)`: a member set in place may raise
         after it was reset (KF-C09-b); item assignment of a declared key on a mapping likewise;
-      * a key-less sort that fails in a comparison leaves the list rearranged, as a Python list does."""
+      * a sort that fails in a COMPARISON — key-less, or with a key in SORT_CMP_FAILS — leaves the list rearranged, as
+        a Python list does (see `check_sort_failure` for what is demanded then).  Only a sort whose KEY FUNCTION
+        raises (SORT_KEY_FN_RAISES) is a rejection route."""
     name = op["op"]
     if kind == "seq":
         k = kind_of_element(target)
@@ -874,7 +927,7 @@ def atomic_route(target, kind, op, args):
         if name == "insert":
             return ("list" if k == "list" else "array") + ("-insert-badindex" if "ix" in op else "-insert")
         if name == "sort":
-            return "sort-key" if op.get("key") in ("len", "field", "raise") else None
+            return "sort-key" if op.get("key") in SORT_KEY_FN_RAISES else None
         if name in SEQ_ATOMIC:
             return ("list" if k == "list" else "array") + "-" + name
         return None
@@ -951,6 +1004,70 @@ def check_rejected(ex, info):
                               "observed": "its parent chain changed", "step": info["i"], "op": op,
                               "raised": exc_name(info["raised"]), "target_kind": kind_of_element(target)})
                 break
+    return fails
+
+
+def check_sort_failure(ex, info):
+    """Oracle clauses for `seq.sort(...)` on the real code (round m1; shared by C07 / C08 / C09), whether the call
+    returned or raised — the interesting case is a sort that raised inside a COMPARISON (`atomic_route` is None):
+    CPython leaves the underlying list rearranged, and the sequence must be a consistent sequence in that order.
+
+    (a) `sort-keeps-members`: the members afterwards are a PERMUTATION of the members before — the same element
+        objects, none lost, none duplicated (for a rejection route — the key function raised — `rejected-changes-nothing`
+        demands the same ORDER as well);
+    (b) `sort-slots-named-by-position`: on a List, the slot of the member at position i is named str(i) and the member's
+        name path (what fq_name() / flattened_name() / flatten() keys are built from) passes through str(i);
+    (c) `sort-member-parents-agree`: every member's visible parent is the sequence, its root is the sequence's root
+        and its path is the sequence's path plus itself (through its slot).
+    Aliased members (Exec.taint) are exempt, as everywhere."""
+    from flatland.schema.base import Slot, Element
+    fails = []
+    op = info.get("op")
+    if info.get("init") or info.get("target") is None or not op or op.get("op") != "sort" or info.get("kind") != "seq":
+        return fails
+    target = info["target"]
+    raised = info.get("raised")
+
+    def fail(clause, expected, observed):
+        fails.append({"clause": clause, "expected": expected, "observed": observed, "step": info["i"], "op": op,
+                      "raised": exc_name(raised) if raised is not None else None, "route": info.get("atomic"),
+                      "target_kind": kind_of_element(target)})
+
+    before = info.get("before_children") or []
+    now = ex.children(target)
+    if sorted(id(x) for x in before) != sorted(id(x) for x in now) or len({id(x) for x in now}) != len({id(x) for x in before}):
+        fail("sort-keeps-members", "the members after sort() are a permutation of the members before",
+             {"before": [ex.lab(x) for x in before], "after": [ex.lab(x) for x in now]})
+        return fails
+    if id(target) in ex.taint or any(id(p) in ex.taint for p in ex.parents(target)):
+        return fails            # the sequence itself hangs below an aliased element: only (a)
+    is_list = kind_of_element(target) == "list"
+    tpath = list(itertools.islice(target.path, CHAIN_BOUND + 1))
+    tnames = [p.name for p in tpath if getattr(p, "name", None) is not None]
+    for i, m in enumerate(now):
+        if not isinstance(m, Element) or id(m) in ex.taint:
+            continue
+        chain = ex.parents(m)
+        if is_list:
+            slot = m.parent
+            nm = getattr(slot, "name", None)
+            if not isinstance(slot, Slot) or nm != str(i):
+                fail("sort-slots-named-by-position", {"position": i, "slot_name": str(i)},
+                     {"slot_names": [getattr(getattr(x, "parent", None), "name", None) for x in now]})
+                break
+            names = [p.name for p in itertools.islice(m.path, CHAIN_BOUND + 1) if p.name is not None]
+            want = tnames + [str(i)] + ([m.name] if m.name is not None else [])
+            if names != want:
+                fail("sort-slots-named-by-position", {"name_path": want}, {"name_path": names})
+                break
+        vis = [p for p in chain if not isinstance(p, Slot)]
+        path = list(itertools.islice(m.path, CHAIN_BOUND + 1))
+        wpath = tpath + ([m.parent] if is_list else []) + [m]
+        if not vis or vis[0] is not target or m.root is not target.root or len(path) != len(wpath) \
+                or any(a is not b for a, b in zip(path, wpath)):
+            fail("sort-member-parents-agree", "parent = the sequence, root = its root, path = its path + the member",
+                 {"parent": ex.lab(vis[0]) if vis else None, "root": ex.lab(m.root), "path": [ex.lab(x) for x in path]})
+            break
     return fails
 
 
@@ -1480,6 +1597,111 @@ def inject_failure_paths(rng, case, schema, any_class=False, p_op=0.5, t_max=7):
     case["nomodel"] = True
     case["why_nomodel"] = "failure paths: live Element arguments / second tree / non-integer index (oracle only)"
     return case
+
+
+# ------------------------------------------------------------------ sorts whose COMPARISON fails (opt-in, round m1)
+
+MIXED_INT_POOL = [3, 1, 2, 0, 5, 7, -1, 10, 12, None, None, "x", "abc", "", " 4", "1_0"]   # ints / unadaptable texts
+
+
+def _sf_schema(cid, k, name=None, subs=()):
+    return {"cid": cid(), "k": k, "name": name, "opt": False, "policy": "subset", "minreq": False, "isa": [],
+            "default": None, "subs": list(subs)}
+
+
+def _sf_mixed(rng, lo=2, hi=8):
+    """2-8 values for Integer members, at least one int and (mostly) at least one value that does not adapt"""
+    n = rng.randint(lo, hi)
+    vals = [rng.choice(MIXED_INT_POOL) for _ in range(n)]
+    if n >= 2 and rng.random() < 0.85:
+        i = rng.randrange(n)
+        vals[i] = rng.choice([None, "x", "abc"])
+        vals[(i + 1 + rng.randrange(n - 1)) % n] = rng.choice([3, 1, 2, 0])
+    return vals
+
+
+def gen_sort_failure_case(rng, root_seq=False):
+    """A complete case (C08 / C09 / C10 format) around `seq.sort(key=…)` calls whose COMPARISON fails: Lists (also
+    Arrays / MultiValues) of 2-8 members mixing ints and None / unadapted text sorted by `key=lambda e: e.value`
+    (TypeError: '<' not supported), by a key object whose `<` raises after k comparisons (`cmp-raise`) or appends to
+    the list being sorted (`cmp-mutate`: ValueError: list modified during sort), with and without reverse, on the
+    root sequence, on nested Lists and on Lists inside Dicts; every such sort is followed by an observation, an append
+    (no renumbering), a renumbering call, and an observation.  Oracle only (`nomodel`): the Lean model's keyed sort
+    either sorts or answers `unsupported`."""
+    cid = Counter()
+    leaf = lambda name=None: _sf_schema(cid, "integer", name)
+    shape = rng.choice(["flat", "flat", "flat", "strings", "nested", "nested", "dicts", "dicts"]
+                       + ([] if root_seq else ["fields", "fields"]))
+    ival = lambda lo=2, hi=8: {"l": _sf_mixed(rng, lo, hi)}
+    if shape == "flat":
+        kind = rng.choice(["list", "list", "list", "list", "array", "multi"])
+        schema = _sf_schema(cid, kind, rng.choice([None, "l", "numbers"]), [leaf(rng.choice([None, "n"]))])
+        value, ts = ival(), [0]
+    elif shape == "strings":
+        schema = _sf_schema(cid, "list", rng.choice([None, "l"]), [_sf_schema(cid, "string", rng.choice([None, "s"]))])
+        value, ts = {"l": [rng.choice(STR_POOL + [3, 1]) for _ in range(rng.randint(2, 8))]}, [0]
+    elif shape == "nested":
+        inner = _sf_schema(cid, rng.choice(["list", "list", "array"]), rng.choice([None, "m"]), [leaf(rng.choice([None, "n"]))])
+        schema = _sf_schema(cid, "list", rng.choice([None, "l"]), [inner])
+        k = rng.randint(2, 5)
+        value = {"l": [ival(0, 5) for _ in range(k)]}
+        ts = [0, 0] + list(range(1, k + 1))
+    elif shape == "dicts":
+        inner = _sf_schema(cid, "list", "n", [leaf(rng.choice([None, "m"]))])
+        member = _sf_schema(cid, rng.choice(["dict", "dict", "sparse"]), rng.choice([None, "d"]), [leaf("x"), inner])
+        schema = _sf_schema(cid, "list", rng.choice([None, "l"]), [member])
+        k = rng.randint(2, 6)
+        value = {"l": [{"d": [["x", rng.choice(MIXED_INT_POOL)], ["n", ival(0, 5)]]} for _ in range(k)]}
+        ts = [0, 0, 0] + list(range(k + 1, 2 * k + 1))       # containers in queue order: the List, the k Dicts, their k Lists
+    else:
+        a = _sf_schema(cid, "list", "a", [leaf(rng.choice([None, "n"]))])
+        b = _sf_schema(cid, "list", "b", [_sf_schema(cid, "list", None, [leaf()])])
+        schema = _sf_schema(cid, "dict", rng.choice([None, "r"]), [a, b, leaf("k")])
+        value = {"d": [["a", ival()], ["b", {"l": [ival(0, 4) for _ in range(rng.randint(2, 4))]}], ["k", 1]]}
+        ts = [1, 1, 2, 3, 4]
+    case = {"schema": schema, "init": {"route": rng.choice(["ctor_value", "ctor_value", "set"]), "value": value}}
+
+    def sort_op():
+        key = rng.choice(["value", "value", "value", "cmp-raise", "cmp-raise", "cmp-mutate"])
+        op = {"op": "sort", "key": key, "rev": rng.random() < 0.4}
+        if key != "value":
+            op["after"] = rng.choice([0, 1, 1, 2, 2, 3, 4, 5, 7, 9, 12])
+        if key == "cmp-mutate":
+            op["v"] = rng.choice(INT_POOL)
+        return op
+
+    ops = []
+    for _ in range(rng.choice([1, 1, 1, 2, 3])):
+        t = rng.choice(ts)
+        step = lambda s: ops.append({"t": t, "s": s, "m": {"op": "observe"}})
+        if rng.random() < 0.3:
+            step({"op": rng.choice(["append", "insert"]), "i": gen_index(rng), "a": {"v": rng.choice(MIXED_INT_POOL)}})
+        step(sort_op())
+        step({"op": "observe"})
+        if rng.random() < 0.3:
+            step(sort_op())                      # once more, from the rearranged state
+        step({"op": "append", "a": {"v": rng.choice(INT_POOL)}})       # no renumbering happens here
+        r = rng.random()
+        if r < 0.25:
+            step({"op": "insert", "i": rng.choice([0, 1, -1]), "a": {"v": rng.choice(INT_POOL)}})
+        elif r < 0.45:
+            step({"op": "reverse"})
+        elif r < 0.65:
+            step({"op": "pop", "i": rng.choice([0, 0, 1, -2])})
+        elif r < 0.8:
+            step({"op": "delslice", "sl": [None, None, 2]})
+        elif r < 0.9:
+            step({"op": "sort", "key": "u", "rev": rng.random() < 0.5})
+        # else: nothing renumbers — the observation below still sees every name
+        step({"op": "observe"})
+    case["ops"] = ops
+    case["nomodel"] = True
+    case["why_nomodel"] = "sort whose comparison fails: the model's keyed sort sorts or answers unsupported (oracle only)"
+    return case
+
+
+def has_sort_failure(case):
+    return any((o.get("s") or {}).get("key") in SORT_CMP_FAILS for o in case["ops"])
 
 
 # ------------------------------------------------------------------ shrinking (shared)
